@@ -41,6 +41,13 @@ def check(ctx, recs):
             continue
         g, out, pr = r.game, r.out, r.pruned
         rew = out[2]
+        # the game the reward loop ran on is the conditioned game as the property text defines it (same targets, in place)
+        exp = sc.expected_rows(r)
+        for s_, (a, b) in enumerate(zip(pr, exp)):
+            if a and [d for _, d in a] != [d for _, d in b]:
+                ctx.violation("state %d: the reward loop ran on the successors %s, the conditioned game has %s" %
+                              (s_, [d for _, d in a], [d for _, d in b]), r.inp(), pruned=str(pr))
+                break
         res = bellman_residual(g, pr, rew)
         if res > 1e-6 * (1 + 1e-6) + 1e-12 * (1 + max(rew)):      # theorem C02_bellman_consistent: absolute, not relative
             ctx.violation("reported rewards are not Bellman-consistent on the conditioned game: residual %g" % res, r.inp(), rewards=rew)
@@ -91,6 +98,7 @@ def run(ctx):
     sc.correspondence(ctx, recs, "cmp_rewards", "c02")
     sc.padding_check(ctx, recs, ("rewards",), 40 if ctx.quick else 400, "c02")
     sc.loglevel_check(ctx, recs, ("rewards",), 25 if ctx.quick else 250, "c02")
+    sc.optimize_check(ctx, recs, ("rewards",), 25 if ctx.quick else 250, "c02")
     sc.resolve_check(ctx, recs, ("rewards",), 30 if ctx.quick else 300, "c02")
     check(ctx, recs)
     known_k1(ctx)
